@@ -223,6 +223,19 @@ class G:
             self.infoot = False
         self.depth -= 1
 
+    def same_nested(self, wrap, lang):
+        if not wrap:
+            return self.chunk()
+        self.kinds['probe_same_language_nested'] += 1
+        if self.rnd.random() < .6:
+            self.w('\\foreignlanguage{%s}{' % lang)
+            self.chunk()
+            self.w('}')
+        else:
+            self.w('\\begin{otherlanguage*}{%s}' % lang)
+            self.chunk()
+            self.w('\\end{otherlanguage*}')
+
     def probe(self):
         """clear-cut foreign insertion of k words strictly inside a sentence (top level, main flow)"""
         r = self.rnd
@@ -234,13 +247,15 @@ class G:
         k = r.randint(1, 6)
         lang = self.other()
         kind = r.choice(['fl', 'fl', 'ol', 'sel'])
+        # one of the words may carry a switch to the language that is in force anyway
+        nest = r.randrange(k) if r.random() < .3 else -1
         if kind == 'fl':
             self.w('\\foreignlanguage{%s}{' % lang)
             self.stack.append(LMAP[lang])
             for i in range(k):
                 if i:
                     self.w(' ')
-                self.chunk()
+                self.same_nested(i == nest, lang)
             self.stack.pop()
             self.w('}')
         elif kind == 'ol':
@@ -249,7 +264,7 @@ class G:
             for i in range(k):
                 if i:
                     self.w(' ')
-                self.chunk()
+                self.same_nested(i == nest, lang)
             self.stack.pop()
             self.w('\\end{otherlanguage*}')
         else:
@@ -391,7 +406,7 @@ class C12(core.Check):
 
     def quotas(self, tier):
         q = {'docs_multi': 3000, 'probes_joined': 300, 'probes_split': 300, 'babel_options_2': 100, 'babel_options_3': 100}
-        for k in ('fl', 'ol', 'sel', 'same', 'sel_in', 'foot', 'head', 'decl', 'optend', 'ol_lines', 'compound', 'mbox_fl'):
+        for k in ('fl', 'ol', 'sel', 'same', 'sel_in', 'foot', 'head', 'decl', 'optend', 'ol_lines', 'compound', 'mbox_fl', 'probe_same_language_nested'):
             q['kind_' + k] = 200
         return q
 
